@@ -712,6 +712,319 @@ def run_backlog(c):
     return fails, stat
 
 
+# ---- reconfiguration while running (oracle only; never replayed through the model) -------------------
+# The public configuration attributes of a running shaper - TokenBucket `rate`, `bucket_size` (raised and lowered), `peak`;
+# TwoRateTokenBucket `cir`, `cbs` and, when it was built with a PIR, `pir`, `pbs` (kept > 0) - are reassigned between packets by
+# another process of the simulation (an operator that wakes at scripted instants).  The Lean models take one fixed configuration,
+# so these cases are judged by a direct oracle alone.  READING: every clause is judged against the value the attribute has at
+# the instant the clause refers to:
+# * "capped at bucket_size": at the CURRENT bucket_size, enforced whenever a packet reaches the head of the queue - so the level
+#   left after a debit never exceeds the bucket_size in force, and the burst bound sum(size_i..size_j) <= max(bucket_size, size_i)
+#   + rate*(t_j - t_i)/8 holds, with the values then in force, over every window of token-debit instants that lies entirely between
+#   two reassignments of `rate` / `bucket_size` (in particular from the first departure after a lowering of bucket_size on);
+# * "at the earliest instant at which the bucket holds the packet's size ... waiting for exactly the missing tokens": the level
+#   refilled to min(bucket_size, level + rate*(h - last update)/8) and the wait (size - level)*8/rate with the values in force at
+#   the instant h the packet reaches the head; "plus 8*size/peak" with the peak in force when that wait begins (the debit instant).
+# Where this leaves a case open the oracle STANDS DOWN for the packet and goes on from the shaper's own public level / update_time:
+# a refill interval (last update, h) in which `rate` was reassigned or `bucket_size` RAISED (which rate filled the bucket for how
+# long, and up to which cap, is not said; a lowered bucket_size is unambiguous: the cap applies from the change on and the refill
+# is the same either way); a packet already waiting for tokens when the rate is reassigned, or for its peak spacing when `peak` is.
+# A case in which a reassignment falls into the very instant of an arrival, a head-of-line instant, a debit or a release is not
+# judged at all (the generator keeps the operator's instants off the traffic's grid).
+
+ASSUMPTIONS.append(
+    'reconfigured cases (oracle only): `rate` / `bucket_size` / `peak` of a running TokenBucket (`cir` / `cbs`, and `pir` / `pbs` of a TwoRateTokenBucket built '
+    'with a PIR) are reassigned by an operator process at instants off the traffic grid, values within the domain of the property (rates > 0, bucket sizes >= 0, '
+    'pbs > 0). Each clause is judged with the values in force at the instant it refers to: refill, cap, wait and colour with those at the head-of-line instant, '
+    'the peak spacing with the peak at the debit instant, the envelopes over windows of debit instants between two reassignments of the rate / size they name. '
+    'The exact recurrence stands down (and resumes from the public level / update_time) for a packet whose refill interval saw a rate reassigned or a bucket '
+    'size raised, and for a packet already waiting when the rate it waits by is reassigned; level bound and envelopes are judged throughout')
+
+RC_ATTRS = {'tb': ('rate', 'bucket_size', 'peak'), 'tworate': ('cir', 'cbs', 'pir', 'pbs')}
+RC_INIT = {'rate': 'rate', 'bucket_size': 'bucket', 'peak': 'peak', 'cir': 'cir', 'cbs': 'cbs', 'pir': 'pir', 'pbs': 'pbs'}      # attribute -> key of the case
+
+
+def reconf_case(rng, cid):
+    c = gen_case(rng, f'R{cid}', 'tb' if rng.random() < 0.7 else 'tworate')
+    c['shaper'], c['kind'] = c['kind'], 'reconf'
+    c.pop('precolour', None)
+    c['own_ids'] = False
+    dyadic = c['dyadic']
+    def rate():
+        return rng.choice(DY_RATE) if dyadic else rng.choice([rng.uniform(1, 1e4), rng.uniform(1e3, 1e7), rng.randint(1, 10 ** 6)])
+    def bucket():
+        return rng.choice(DY_BUCKET) if dyadic else rng.choice([rng.randint(0, 5000), rng.randint(1, 200), round(rng.uniform(0, 4000), 2)])
+    cur = {a: c[RC_INIT[a]] for a in RC_ATTRS[c['shaper']]}
+    def change():
+        if c['shaper'] == 'tb':
+            attr = rng.choice(['bucket_size', 'bucket_size', 'bucket_size', 'rate', 'rate', 'peak'])
+        else:
+            attr = rng.choice(['cbs', 'cbs', 'cir'] + (['pbs', 'pir'] if c['pir'] else []))
+        if attr in ('rate', 'cir', 'pir'):
+            new = rate() if rng.random() < 0.5 else cur[attr] * rng.choice([0.5, 2, 4, 0.25])
+        elif attr == 'peak':
+            new = rng.choice([None, 0]) if cur['peak'] and rng.random() < 0.4 else cur['rate'] * rng.choice([1, 2, 4, 16])
+        else:
+            # raised and lowered alike; a lowering below the tokens the bucket holds is the interesting half
+            new = bucket()
+            if rng.random() < 0.5 and cur[attr]:
+                new = cur[attr] // rng.choice([2, 3, 8]) if isinstance(cur[attr], int) else cur[attr] / rng.choice([2, 4])
+            if attr == 'pbs' and not new:
+                new = rng.choice([64, 1500])
+        cur[attr] = new
+        return [attr, new]
+    # the operator's instants: raw floats strictly inside a gap between two arrival instants (half of them) or anywhere in the run
+    arr = sorted({t for s in c['sources'] for t in _arrival_instants(s)})
+    span = (arr[-1] if arr else 0.0) + 1.0
+    inst = []
+    for _ in range(rng.randint(1, 4)):
+        gaps = [(x, y) for x, y in zip(arr, arr[1:]) if y > x]
+        if gaps and rng.random() < 0.5:
+            x, y = rng.choice(gaps)
+            inst.append(x + (y - x) * rng.uniform(0.05, 0.95))
+        else:
+            inst.append(rng.uniform(0.0, span))
+    c['reconf'] = [[t] + change() for t in sorted(inst)]
+    return c
+
+
+def _arrival_instants(script):
+    t, out = 0.0, []
+    for gap, _ in script:
+        t = t + gap
+        out.append(t)
+    return out
+
+
+class RCOut:
+    """the `out` of a reconfigured shaper: records, at the moment of `out.put`, the public figures of the device"""
+
+    def __init__(self, env, dev):
+        self.env, self.dev, self.release = env, dev, []      # (out instant, packet, update_time, levels, colour)
+
+    def put(self, packet):
+        d = self.dev
+        lv = (d.current_bucket,) if hasattr(d, 'current_bucket') else (d.current_bucket_commit, d.current_bucket_peak)
+        self.release.append((self.env.now, packet, d.update_time, lv, packet.color))
+
+
+def run_reconf(c):
+    """-> (arrivals [(instant, packet)], releases, applied [(instant, attribute, value)], raised, device)"""
+    env = Environment()
+    if c['shaper'] == 'tb':
+        dev = TokenBucket(env, c['rate'], c['bucket'], c['peak'])
+    else:
+        dev = TwoRateTokenBucket(env, c['cir'], c['cbs'], c['pir'], c['pbs'])
+    out = dev.out = RCOut(env, dev)
+    arrivals, applied, raised = [], [], None
+
+    class Entry:
+        def put(self, p):
+            arrivals.append((env.now, p))
+            dev.put(p)
+
+    def operator():
+        for t, attr, val in c.get('reconf') or []:
+            if t > env.now:
+                yield env.timeout(t - env.now)
+            setattr(dev, attr, val)
+            applied.append((env.now, attr, val))        # the instant it really happened (t up to rounding)
+    counter = [0]
+    for script in c['sources']:
+        env.process(feeder(env, Entry(), script, counter))
+    env.process(operator())
+    try:
+        with quiet():
+            env.run()
+    except BaseException as x:          # the property says nothing is lost: the run must not raise
+        raised = f'{type(x).__name__}: {x}'
+    return arrivals, out.release, applied, raised, dev
+
+
+def oracle_reconf(c):
+    """-> (failures, statistics, releases)"""
+    st = collections.Counter()
+    fails = []
+    def fail(what, sig):
+        fails.append({'what': what, 'signature': sig})
+    acc, rel, applied, raised, dev = run_reconf(c)
+    tb = c['shaper'] == 'tb'
+    pre = 'tb' if tb else 'tworate'
+    if raised:
+        fail(f'the run raised {raised}', f'{pre}-raised')
+        return fails, st, rel
+    # nothing lost, first in first out, exactly once
+    if [id(p) for _, p in acc] != [id(r[1]) for r in rel]:
+        fail(f'{len(acc)} packets entered, {len(rel)} left once the simulation ran out of events, or the order differs (ids in: '
+             f'{[p.packet_id for _, p in acc][:12]}, out: {[r[1].packet_id for r in rel][:12]})', 'tb-fifo-lossless')
+        return fails, st, rel
+    st['packets'] += len(acc)
+    init = {a: c[RC_INIT[a]] for a in RC_ATTRS[c['shaper']]}
+    def at(attr, t):
+        v = init[attr]
+        for r, a, val in applied:
+            if a == attr and r < t:
+                v = val
+        return v
+    def reassigned(attr, lo, hi):
+        return any(a == attr and lo < r < hi for r, a, _ in applied)
+    def raised_in(attr, lo, hi):
+        v = at(attr, lo)
+        for r, a, val in applied:
+            if a == attr and lo < r < hi:
+                if val > v:
+                    return True
+                v = val
+        return False
+    def told(*attrs):
+        hist = [f'{a} = {val!r} at {r!r}' for r, a, val in applied if a in attrs]
+        return ('constructed with ' + ', '.join(f'{a} {init[a]!r}' for a in attrs) + ('; another process assigned ' + ', '.join(hist) if hist else ''))
+    # head-of-line instants
+    heads, prev_out = [], None
+    for (a, _), r in zip(acc, rel):
+        heads.append(a if prev_out is None or a > prev_out else prev_out)
+        prev_out = r[0]
+    grid = {a for a, _ in acc} | set(heads) | {r[0] for r in rel} | {r[2] for r in rel}
+    if any(r in grid for r, _, _ in applied):
+        st['cases_stood_down:reconfigured_in_the_instant_of_an_arrival_head_debit_or_release'] += 1
+        return fails, st, rel
+    st['cases_judged'] += 1
+    prev_out = None
+    if tb:
+        level, upd = init['bucket_size'], 0.0
+        for (a, p), h, (tout, _, ut, lv, _) in zip(acc, heads, rel):
+            rate, B = at('rate', h), at('bucket_size', h)
+            who = f'packet {p.packet_id} (size {p.size}) at the head at {h!r}, rate {rate!r} and bucket_size {B!r} in force ({told("rate", "bucket_size")})'
+            if applied and applied[0][0] < h:
+                st['packets_at_the_head_after_a_reconfiguration'] += 1
+            if reassigned('rate', upd, h) or raised_in('bucket_size', upd, h):
+                st['packets_not_judged_exactly:rate_reassigned_or_bucket_raised_during_the_refill'] += 1
+            else:
+                lvl = min(B, level + rate * (h - upd) / 8.0)
+                if lvl < level:
+                    st['refills_capped_below_the_tokens_held:bucket_size_lowered'] += 1
+                if p.size > lvl:
+                    t, left = h + (p.size - lvl) * 8.0 / rate, 0.0
+                else:
+                    t, left = h, lvl - p.size
+                if t > h and reassigned('rate', h, max(t, ut)):
+                    st['packets_not_judged_exactly:rate_reassigned_while_waiting_for_tokens'] += 1
+                elif ut != t:
+                    fail(f'{who} with {lvl!r} tokens (= min(bucket_size, {level!r} + rate*({h!r} - {upd!r})/8)): tokens debited at {ut!r}, the earliest '
+                         f'instant at which the bucket holds its size is {t!r}', 'tb-reconf-release-time')
+                    break
+                elif lv[0] != left:
+                    fail(f'{who} with {lvl!r} tokens (= min(bucket_size, {level!r} + rate*({h!r} - {upd!r})/8)): {lv[0]!r} tokens left after the debit, expected {left!r}',
+                         'tb-reconf-level')
+                    break
+                else:
+                    st['packets_judged_exactly'] += 1
+            # "capped at bucket_size": what is left after the debit lies within [0, the bucket_size in force], also where the recurrence stood down
+            if lv[0] < 0 or lv[0] > max(B, 0) + tol(1, B):
+                fail(f'{who}: {lv[0]!r} tokens are left after its debit - the bucket is capped at bucket_size, at most {B!r} can be there', 'tb-reconf-level-bounds')
+                break
+            # "plus 8*size/peak when a peak rate is set": the peak in force when that wait begins
+            peak = at('peak', ut)
+            if reassigned('peak', ut, tout):
+                st['packets_not_judged_exactly:peak_reassigned_during_the_spacing'] += 1
+            else:
+                out = ut + p.size * 8.0 / peak if peak else ut
+                if tout != out:
+                    fail(f'{who}: tokens debited at {ut!r}, peak {peak!r} in force ({told("peak")}): released at {tout!r}, expected {out!r}', 'tb-reconf-peak-release')
+                    break
+            level, upd, prev_out = lv[0], ut, tout
+        envs = [('rate', 'bucket_size', None, '(rate, bucket_size) envelope', 'tb-reconf-envelope')]
+    else:
+        commit, peakl, upd = init['cbs'], init['pbs'], 0.0
+        for (a, p), h, (tout, _, ut, lv, colour) in zip(acc, heads, rel):
+            cir, cbs, pir, pbs = at('cir', h), at('cbs', h), at('pir', h), at('pbs', h)
+            who = (f'packet {p.packet_id} (size {p.size}) at the head at {h!r}, CIR {cir!r} CBS {cbs!r} PIR {pir!r} PBS {pbs!r} in force '
+                   f'({told("cir", "cbs", "pir", "pbs")})')
+            if applied and applied[0][0] < h:
+                st['packets_at_the_head_after_a_reconfiguration'] += 1
+            amb = reassigned('cir', upd, h) or raised_in('cbs', upd, h) or (pir and (reassigned('pir', upd, h) or raised_in('pbs', upd, h)))
+            if amb:
+                st['packets_not_judged_exactly:rate_reassigned_or_bucket_raised_during_the_refill'] += 1
+            else:
+                cm = min(cbs, commit + cir * (h - upd) / 8.0)
+                t, by = h, None
+                if pir:
+                    pk = min(pbs, peakl + pir * (h - upd) / 8.0)
+                    if p.size > pk:
+                        t, by = h + (p.size - pk) * 8.0 / pir, 'pir'
+                        want, left = 'red', (cm, 0.0)
+                    elif p.size > cm:
+                        want, left = 'yellow', (0.0, pk - p.size)
+                    else:
+                        want, left = 'green', (cm - p.size, pk - p.size)
+                    state = f'{pk!r} peak and {cm!r} committed tokens'
+                else:
+                    if p.size > cm:
+                        t, by = h + (p.size - cm) * 8.0 / cir, 'cir'
+                        want, left = 'yellow', (0.0, lv[1])
+                    else:
+                        want, left = 'green', (cm - p.size, lv[1])
+                    state = f'{cm!r} committed tokens (no PIR)'
+                if colour != want:
+                    fail(f'{who} with {state}: coloured {colour!r}, expected {want!r}', 'tworate-reconf-colour')
+                    break
+                if by and reassigned(by, h, max(t, ut)):
+                    st['packets_not_judged_exactly:rate_reassigned_while_waiting_for_tokens'] += 1
+                elif tout != t or ut != t:
+                    fail(f'{who} with {state}: released at {tout!r} (update_time {ut!r}), expected {t!r}', 'tworate-reconf-release-time')
+                    break
+                elif (lv[0], lv[1]) != left:
+                    fail(f'{who} with {state}: buckets after the debit (commit {lv[0]!r}, peak {lv[1]!r}), expected {left!r}', 'tworate-reconf-levels')
+                    break
+                else:
+                    st['packets_judged_exactly'] += 1
+            if lv[0] < 0 or lv[0] > max(cbs, 0) + tol(1, cbs) or (pir and (lv[1] < 0 or lv[1] > pbs + tol(1, pbs))):
+                fail(f'{who}: (commit {lv[0]!r}, peak {lv[1]!r}) tokens are left after its debit - outside [0, the bucket sizes in force]', 'tworate-reconf-level-bounds')
+                break
+            commit, peakl, upd, prev_out = lv[0], lv[1], ut, tout
+        envs = [('cir', 'cbs', 'green', 'green traffic against (CIR, CBS)', 'tworate-reconf-green-envelope')]
+        envs.append(('pir', 'pbs', None, 'all traffic against (PIR, PBS)', 'tworate-reconf-envelope') if init['pir'] else
+                    ('cir', 'cbs', None, 'all traffic against (CIR, CBS), no PIR', 'tworate-reconf-envelope'))
+    # the burst bound, with the values then in force, over the windows of token-debit instants between two reassignments of the rate /
+    # bucket size it names (before the first, between consecutive ones, after the last).  It is the clause the property spells out as a
+    # formula over departures alone: its failures are listed before those of the recurrence above
+    recurrence, fails[:] = list(fails), []
+    for ra, ba, col, what, sig in envs:
+        cuts = [-1.0] + [r for r, a, _ in applied if a in (ra, ba)] + [INF]
+        for lo, hi in zip(cuts, cuts[1:]):
+            win = [(r[2], r[1].size) for r in rel if lo < r[2] < hi and (col is None or r[4] == col)]
+            if not win:
+                continue
+            rate, B = at(ra, win[0][0]), at(ba, win[0][0])
+            st['envelope_windows'] += 1
+            if lo >= 0:
+                st['envelope_windows_after_a_reassignment'] += 1
+            m = envelope_fails(win, rate, B, what + (f' with the values in force since {lo!r} ({told(ra, ba)})' if lo >= 0 else ' before the first reassignment'))
+            if m:
+                fail(m, sig)
+                break
+    fails += recurrence
+    return fails, st, rel
+
+
+def shrink_reconf(c, sig):
+    """smaller case with the same oracle failure: fewer sources / entries / packets, then fewer reassignments"""
+    import copy
+    still = lambda cc: any(g['signature'] == sig for g in oracle_reconf(cc)[0])
+    best = shrink(c, ['sources'], still, budget=200)
+    i = len(best.get('reconf') or []) - 1
+    while i >= 0:
+        cc = copy.deepcopy(best)
+        del cc['reconf'][i]
+        try:
+            if still(cc):
+                best = cc
+        except Exception:
+            pass
+        i -= 1
+    return best
+
+
 def run(ctx):
     tk = run_tbk(ctx)                        # tbk leg: a replay of one of its cases runs only that leg
     if tk is not None:
@@ -728,7 +1041,10 @@ def run(ctx):
     brng = random.Random(f'C11-backlog-{ctx.seed}')
     backlog = [c for c in cases if c.get('kind') == 'backlog'] if ctx.replay else \
         [gen_backlog(brng, i, kind) for i, kind in enumerate(['tb', 'tworate'] * (1 if ctx.quick else 4))]
-    cases = [c for c in cases if c.get('kind') != 'backlog']
+    rrng = random.Random(f'C11-reconf-{ctx.seed}')
+    rccases = [c for c in cases if c.get('kind') == 'reconf'] if ctx.replay else \
+        [reconf_case(rrng, i) for i in range(64 if ctx.quick else 1200)]      # about a tenth of the replayed cases
+    cases = [c for c in cases if c.get('kind') not in ('backlog', 'reconf')]
     text, runs = [], {}
     for c in cases:
         r = run_impl(c)
@@ -824,6 +1140,38 @@ def run(ctx):
         for f in fl:
             f['case'] = c; f['trace'] = []
             orc.append(f)
+    rchist, rcnontriv = collections.Counter(), 0
+    for c in rccases:
+        fs, st, rel = oracle_reconf(c)
+        rchist.update(st)
+        rchist['shaper:' + c['shaper']] += 1
+        cur = {a: c[RC_INIT[a]] for a in RC_ATTRS[c['shaper']]}
+        for _, attr, val in c.get('reconf') or []:
+            old_v = cur[attr]
+            how = 'set' if not old_v and val else 'cleared' if old_v and not val else 'same' if val == old_v else 'raised' if (val or 0) > (old_v or 0) else 'lowered'
+            rchist[f'assigned:{attr}:{how}'] += 1
+            cur[attr] = val
+        # non-trivial: a packet reached the head after a reassignment and was judged by the exact recurrence with the new values
+        if st['packets_at_the_head_after_a_reconfiguration'] and st['packets_judged_exactly']:
+            rcnontriv += 1
+        for f in fs:
+            f['case'] = c
+            if shrunk < 3 and not ctx.replay and '-reconf-' in f['signature']:
+                shrunk += 1
+                small = shrink_reconf(c, f['signature'])
+                f2 = next((g for g in oracle_reconf(small)[0] if g['signature'] == f['signature']), None)
+                if f2:
+                    f = dict(f2, case=small, shrunk_from=c['cid'])
+            r2 = rel if f['case'] is c else oracle_reconf(f['case'])[2]
+            f['trace'] = [{'released': t, 'id': p.packet_id, 'size': p.size, 'debit': ut, 'levels': lv, 'colour': col} for t, p, ut, lv, col in r2[:80]]
+            orc.append(f)
+    cov['reconfigured_oracle_only'] = {
+        'evaluations': len(rccases), 'distinct_nontrivial': rcnontriv,
+        'what': 'a running TokenBucket whose public `rate`, `bucket_size` (raised and lowered), `peak` - a TwoRateTokenBucket whose `cir`, `cbs` and, if built with '
+                'a PIR, `pir`, `pbs` - are reassigned between packets by an operator process (1-4 times, inside gaps of the arrival pattern or anywhere in the run); '
+                'FIFO / nothing lost, level within the bucket size in force, exact refill-cap-wait-colour recurrence with the values in force at the head-of-line '
+                'instant, peak spacing, and the envelopes over the windows of debit instants between reassignments; non-trivial = packets reached the head after a '
+                'reassignment and were judged exactly', 'histogram': dict(sorted(rchist.items())), 'sample': rccases[0] if rccases else None}
     res = {'coverage': cov, 'disagreements': dis, 'oracle_failures': orc}
     run_tbk(ctx, res)                        # tbk leg: appends its coverage, disagreements and oracle failures in place
     run_trk(ctx, res)                        # trk leg: likewise
